@@ -54,6 +54,16 @@ def run(tier, rep):
         recs, _ = vlib.run_vh(["c04-replay", p], timeout=3000)
         handle(rep, recs)
         os.remove(p)
+    # the filter splitter: backward scan of the code vs. forward lexer, then the real function on every string
+    r = vlib.tlc("MC_XPathSplit", "MC_XPathSplit.cfg", consts={"MaxLen": "7" if thorough else "6", "EmitCases": "TRUE"}, timeout=3000)
+    rep.add_tlc("MC_XPathSplit", r)
+    if not vlib.tlc_ok(r, "MC_XPathSplit"):
+        raise vlib.Inconclusive("XPathSplit.tla: backward scan and forward lexer disagree on a well-formed xpath (%s): specification problem" % r.violated)
+    p = os.path.join(vlib.scratch(), "c04.split.ndjson")
+    vlib.write_ndjson(p, r.cases)
+    del r.cases[:]
+    recs, _ = vlib.run_vh(["c04-split", p], timeout=3000)
+    handle(rep, recs)
     tr = os.path.join(vlib.scratch(), "c04.trace.ndjson")
     recs, _ = vlib.run_vh(["c04-drive", tr] + (["1500", "40"] if thorough else ["150", "30"]))
     handle(rep, recs)
@@ -65,7 +75,8 @@ def run(tier, rep):
                        "doc": ev.get("doc"), "xpath": ev.get("xpath"), "delivered": ev.get("delivered")})
     rep.cov["rule"] = ("B1: every XML-shaped document with N nodes (elements a/b, text 1/2, attribute k) x every xpath of <=2/3 steps "
                        "(child/descendant, name/*) x 7 predicate forms; expectations = outermost whole-document selection (StreamSelect.tla); "
-                       "replayed on the real XML and (where representable) JSON stream readers, the engine's own whole-document result "
-                       "cross-checks the oracle. B2: random documents (<=30/40 nodes) and xpaths, TLC evaluates the reference on the logged case. "
+                       "replayed on the real XML and (where representable) JSON stream readers in a plain rendering and in one with quote characters "
+                       "inside values (literals written with the other quote) and whitespace-padded target xpaths; the engine's own whole-document result "
+                       "cross-checks the oracle. removeLastFilterInXPath: every string <=6/7 over {a [ ] ' \" /} (XPathSplit.tla) on the real function. B2: random documents (<=30/40 nodes) and xpaths, TLC evaluates the reference on the logged case. "
                        "non-trivial: >=2 nodes on the path or a candidate rejected/nested")
     rep.cov["exhaustive"] = True
